@@ -70,6 +70,11 @@ impl BBSplusSignature {
         let e = Scalar::from_bytes_be(&data[G1Projective::COMPRESSED_BYTES..Self::BYTES])
             .map_err(|_| Error::InvalidSignature)?;
 
+        // draft-08 octets_to_signature: A must not be Identity_G1 and e must not be zero
+        if A == G1Projective::IDENTITY || e == Scalar::ZERO {
+            return Err(Error::InvalidSignature);
+        }
+
         Ok(Self { A, e })
     }
 }
